@@ -77,6 +77,16 @@ class Struct:
   def __getattr__(self, key):
     f = self._field(key)
     if 'struct' in f:
+      sn = f['struct']
+      if sn.endswith(']'):   # array of structs, e.g. 'mjWarningStat[7]' -> structured numpy view
+        import re as _re
+        base = sn[:sn.index('[')].strip()
+        dims = tuple(int(x) for x in _re.findall(r'\[(\d+)\]', sn))
+        base = base[:-1] if base.endswith('_') else base
+        dt = self._lib.struct_dtype(base)
+        n = int(np.prod(dims))
+        buf = (C.c_char * (n * dt.itemsize)).from_address(self.ptr + f['off'])
+        return np.frombuffer(buf, dtype=dt).reshape(dims)
       return Struct(self._lib, self._name, self.ptr, self._prefix + key + '.', self._keep)
     a = self.ptr + f['off']
     if f['shape']:
